@@ -1871,3 +1871,235 @@ Proof.
   assert (E : check_ttl w ttl = Err EExpired) by (apply check_ttl_spec; auto). rewrite E.
   split; [reflexivity|discriminate].
 Qed.
+
+(* ------------------------------------------------------------------ C18: the reverted state machine *)
+
+Definition get_tx (l : list trec) (parent id : N) : option trec :=
+  find (fun t => tkey_eqb t parent id) l.
+
+Lemma tkey_eqb_iff t p i : tkey_eqb t p i = true <-> t_parent t = p /\ t_id t = i.
+Proof. unfold tkey_eqb. rewrite andb_true_iff. split; intros [A B]; split; lia. Qed.
+
+Lemma get_save_tx l x p i :
+  get_tx (save_tx l x) p i = if tkey_eqb x p i then Some x else get_tx l p i.
+Proof.
+  unfold get_tx. induction l as [|t r IH]; cbn [save_tx find].
+  - destruct (tkey_eqb x p i); reflexivity.
+  - destruct (tkey_eqb t (t_parent x) (t_id x)) eqn:E1; cbn [find].
+    + destruct (tkey_eqb x p i) eqn:E2; [reflexivity|].
+      apply tkey_eqb_iff in E1 as [A B].
+      assert (tkey_eqb t p i = false).
+      { destruct (tkey_eqb t p i) eqn:E3; [|reflexivity]. apply tkey_eqb_iff in E3 as [C D].
+        assert (tkey_eqb x p i = true) by (apply tkey_eqb_iff; split; congruence). congruence. }
+      now rewrite H.
+    + destruct (_ || _); cbn [find].
+      * destruct (tkey_eqb x p i); reflexivity.
+      * destruct (tkey_eqb t p i) eqn:E3.
+        -- destruct (tkey_eqb x p i) eqn:E2; [|reflexivity].
+           exfalso. apply tkey_eqb_iff in E3 as [A B]. apply tkey_eqb_iff in E2 as [C D].
+           assert (tkey_eqb t (t_parent x) (t_id x) = true) by (apply tkey_eqb_iff; split; congruence).
+           congruence.
+        -- apply IH.
+Qed.
+
+(** a log entry that counts as settled: confirmed and not marked reverted *)
+Definition settled (t : trec) : Prop := t_conf t = true /\ t_type t <> TReverted.
+Definition settled_at (l : list trec) (parent id : N) : Prop :=
+  exists t, get_tx l parent id = Some t /\ settled t.
+
+Lemma find_key_ext l parent id :
+  find (fun t => optN_eqb (Some (t_id t)) (Some id) && (t_parent t =? parent)) l = get_tx l parent id.
+Proof.
+  unfold get_tx. induction l as [|t r IH]; cbn [find]; [reflexivity|].
+  assert (E : optN_eqb (Some (t_id t)) (Some id) && (t_parent t =? parent) = tkey_eqb t parent id).
+  { unfold tkey_eqb. cbn. rewrite andb_comm. reflexivity. }
+  rewrite E. destruct (tkey_eqb t parent id); [reflexivity|exact IH].
+Qed.
+
+(** apply_one only ever writes settled entries, so a settled entry stays settled *)
+Lemma apply_one_keeps_settled parent tip p rev w q pa i :
+  settled_at (w_log w) pa i -> settled_at (w_log (apply_one parent tip p rev w q)) pa i.
+Proof.
+  intros Hs. unfold apply_one.
+  destruct (get_out (w_outs w) (r_key q) (r_mmr q)) as [o|]; [|exact Hs].
+  destruct (present_height p (r_key q) (r_mmr q)) as [h|]; [|exact Hs].
+  (* first the coinbase entry, then the confirmation of the linked entry: both settled writes *)
+  assert (Hsave : forall l x, settled x -> settled_at l pa i -> settled_at (save_tx l x) pa i).
+  { intros l x Hx (t & Hg & Ht). unfold settled_at. rewrite get_save_tx.
+    destruct (tkey_eqb x pa i); eauto. }
+  destruct (r_cb o && status_eqb (r_status o) Unconfirmed).
+  - unfold next_log_id. cbn zeta.
+    match goal with |- context [if ?b then _ else _] => destruct b end.
+    + cbn [w_log with_log with_logid w_outs with_outs].
+      match goal with |- context [find ?f ?l] => destruct (find f l) as [t|] end;
+        cbn [w_log with_log with_outs]; repeat apply Hsave; try exact Hs;
+        try (split; [reflexivity|cbn; discriminate]).
+      split; [destruct t; reflexivity|]. destruct (ttype_eqb (t_type t) TReverted) eqn:E; destruct t; cbn in *;
+        [discriminate|]. intros ->. cbn in E. discriminate.
+    + cbn [w_log with_log with_logid with_outs]. apply Hsave; [split; [reflexivity|cbn; discriminate]|exact Hs].
+  - match goal with |- context [if ?b then _ else _] => destruct b end.
+    + match goal with |- context [find ?f ?l] => destruct (find f l) as [t|] end;
+        cbn [w_log with_log with_outs]; [|exact Hs].
+      apply Hsave; [|exact Hs].
+      split; [destruct t; reflexivity|]. destruct (ttype_eqb (t_type t) TReverted) eqn:E; destruct t; cbn in *;
+        [discriminate|]. intros ->. cbn in E. discriminate.
+    + cbn [w_log with_outs]. exact Hs.
+Qed.
+
+Lemma apply_one_keeps_entries parent tip p rev w q pa i :
+  get_tx (w_log w) pa i <> None -> get_tx (w_log (apply_one parent tip p rev w q)) pa i <> None.
+Proof.
+  intros Hs. unfold apply_one.
+  destruct (get_out (w_outs w) (r_key q) (r_mmr q)) as [o|]; [|exact Hs].
+  destruct (present_height p (r_key q) (r_mmr q)) as [h|]; [|exact Hs].
+  assert (Hsave : forall l x, get_tx l pa i <> None -> get_tx (save_tx l x) pa i <> None).
+  { intros l x Hg. rewrite get_save_tx. destruct (tkey_eqb x pa i); [discriminate|exact Hg]. }
+  destruct (r_cb o && status_eqb (r_status o) Unconfirmed).
+  - unfold next_log_id. cbn zeta.
+    match goal with |- context [if ?b then _ else _] => destruct b end.
+    + cbn [w_log with_log with_logid w_outs with_outs].
+      match goal with |- context [find ?f ?l] => destruct (find f l) as [t|] end;
+        cbn [w_log with_log with_outs]; repeat apply Hsave; exact Hs.
+    + cbn [w_log with_log with_logid with_outs]. apply Hsave; exact Hs.
+  - match goal with |- context [if ?b then _ else _] => destruct b end.
+    + match goal with |- context [find ?f ?l] => destruct (find f l) as [t|] end;
+        cbn [w_log with_log with_outs]; [apply Hsave|]; exact Hs.
+    + cbn [w_log with_outs]. exact Hs.
+Qed.
+
+(** processing a present, non-coinbase, Unconfirmed-or-Reverted record settles its entry:
+    confirmed, and a TxReverted entry is TxReceived again *)
+Lemma apply_one_settles parent tip p rev w q o h id :
+  get_out (w_outs w) (r_key q) (r_mmr q) = Some o ->
+  present_height p (r_key q) (r_mmr q) = Some h ->
+  r_cb o = false -> (r_status o = Unconfirmed \/ r_status o = Reverted) -> r_tx o = Some id ->
+  get_tx (w_log w) parent id <> None ->
+  settled_at (w_log (apply_one parent tip p rev w q)) parent id.
+Proof.
+  intros Hg Hp Hcb Hst Htx Hent. unfold apply_one. rewrite Hg, Hp, Hcb. cbn [andb negb].
+  cbv beta iota zeta. rewrite Hcb. cbn [andb negb].
+  assert (E : status_eqb (r_status o) Unconfirmed || status_eqb (r_status o) Reverted = true).
+  { destruct Hst as [-> | ->]; reflexivity. }
+  rewrite E. rewrite Htx, find_key_ext.
+  destruct (get_tx (w_log w) parent id) as [t|] eqn:Et; [|contradiction].
+  cbn [w_log with_log with_outs]. unfold settled_at. rewrite get_save_tx.
+  assert (Ek : tkey_eqb (set_conf (if ttype_eqb (t_type t) TReverted then set_ttype t TReceived else t) true)
+                        parent id = true).
+  { unfold get_tx in Et. apply find_some in Et as [_ Ek]. apply tkey_eqb_iff in Ek as [A B].
+    apply tkey_eqb_iff. destruct (ttype_eqb (t_type t) TReverted); destruct t; cbn in *; auto. }
+  rewrite Ek. eexists; split; [reflexivity|].
+  split; [destruct (ttype_eqb _ _); destruct t; reflexivity|].
+  destruct (ttype_eqb (t_type t) TReverted) eqn:E2; destruct t; cbn in *; [discriminate|].
+  intros ->. cbn in E2. discriminate.
+Qed.
+
+(** C18, re-confirmation: when a full or partial refresh finds a reverted (or unconfirmed)
+    non-coinbase output of the account on chain again, the output is Unspent and — unless the
+    entry is (still) caught by the reverted-kernel rule — its log entry is confirmed and no
+    longer TxReverted. *)
+Theorem refresh_reconfirms w parent all tip p km q id h :
+  WF w -> lookup (w_confh w) parent <= tip ->
+  In q (refresh_set w parent all) ->
+  r_cb q = false -> (r_status q = Unconfirmed \/ r_status q = Reverted) -> r_tx q = Some id ->
+  present_height p (r_key q) (r_mmr q) = Some h ->
+  get_tx (w_log w) parent id <> None ->
+  existsb (N.eqb id) (reverted_ids w parent (refresh_set w parent all) p km) = false ->
+  let w' := refresh_apply w parent all tip p km in
+  (exists o', get_out (w_outs w') (r_key q) (r_mmr q) = Some o' /\ r_status o' = Unspent
+              /\ r_value o' = r_value q)
+  /\ settled_at (w_log w') parent id.
+Proof.
+  intros Hwf Hh Hin Hcb Hst Htx Hp Hent Hnrev. cbn zeta. split.
+  - destruct (refresh_exact w parent all tip p km q Hwf Hh Hin) as (o' & A & B & C & _).
+    exists o'. split; [exact A|]. split; [|exact C]. rewrite B. unfold refreshed_status. rewrite Hp.
+    destruct Hst as [-> | ->]; reflexivity.
+  - unfold refresh_apply.
+    set (qs := refresh_set w parent all) in *. set (rev := reverted_ids w parent qs p km) in *.
+    assert (E : tip <? lookup (w_confh w) parent = false) by lia. rewrite E.
+    cbn [w_log with_confh with_log].
+    assert (Hnq : NoDup (map okey qs)) by (apply nodup_filter_keys; exact Hwf).
+    assert (Hgq : forall q0, In q0 qs -> get_out (w_outs w) (r_key q0) (r_mmr q0) = Some q0).
+    { intros q0 Hq0. apply get_out_of_in; [exact Hwf|]. apply filter_In in Hq0 as [H _]. exact H. }
+    (* the fold settles the entry when it reaches q and keeps it settled afterwards *)
+    assert (Hfold : forall l w0, NoDup (map okey l) ->
+              (forall q0, In q0 l -> get_out (w_outs w0) (r_key q0) (r_mmr q0) = Some q0) ->
+              get_tx (w_log w0) parent id <> None -> In q l ->
+              settled_at (w_log (fold_left (apply_one parent tip p rev) l w0)) parent id).
+    { induction l as [|q0 r IH]; intros w0 Hn Hg He Hi; [contradiction|].
+      cbn [fold_left]. inversion Hn as [|? ? Hq0 Hr]; subst.
+      assert (Hkeep : forall l' w1, settled_at (w_log w1) parent id ->
+                settled_at (w_log (fold_left (apply_one parent tip p rev) l' w1)) parent id).
+      { induction l' as [|x l' IHl]; intros w1 Hs; cbn [fold_left]; [exact Hs|].
+        apply IHl. now apply apply_one_keeps_settled. }
+      destruct Hi as [<-|Hi].
+      - apply Hkeep. eapply apply_one_settles; eauto. apply Hg. now left.
+      - apply IH; auto.
+        + intros q' Hq'. rewrite apply_one_get_other; [apply Hg; now right|].
+          intros [A B]. apply Hq0. apply in_map_iff. exists q'. split; [|exact Hq']. unfold okey. congruence.
+        + now apply apply_one_keeps_entries. }
+    destruct (Hfold qs w Hnq Hgq Hent Hin) as (t & Hgt & Hset).
+    (* the final pass marks only entries in [rev] *)
+    unfold settled_at, get_tx in *.
+    induction (w_log (fold_left (apply_one parent tip p rev) qs w)) as [|x l IHl]; [discriminate|].
+    cbn [map find] in *.
+    assert (Hk : forall y, tkey_eqb (if existsb (N.eqb (t_id y)) rev && (t_parent y =? parent)
+                                      then set_conf (set_ttype y TReverted) false else y) parent id
+                           = tkey_eqb y parent id).
+    { intros y. destruct (_ && _); destruct y; reflexivity. }
+    rewrite Hk. destruct (tkey_eqb x parent id) eqn:Ex.
+    + inversion Hgt; subst x. apply tkey_eqb_iff in Ex as [A B]. rewrite B, Hnrev. cbn [andb].
+      exists t. split; [reflexivity|exact Hset].
+    + apply IHl. exact Hgt.
+Qed.
+
+(** C18, reverting: what the reverted-kernel rule does to the log — every entry of the account
+    whose id is in the reverted set ends up TxReverted and unconfirmed *)
+Theorem refresh_marks_reverted w parent all tip p km t :
+  lookup (w_confh w) parent <= tip ->
+  In t (w_log (refresh_apply w parent all tip p km)) -> t_parent t = parent ->
+  existsb (N.eqb (t_id t)) (reverted_ids w parent (refresh_set w parent all) p km) = true ->
+  t_type t = TReverted /\ t_conf t = false.
+Proof.
+  intros Hh Hin Hp Hrev. unfold refresh_apply in Hin.
+  assert (E : tip <? lookup (w_confh w) parent = false) by lia. rewrite E in Hin.
+  cbn [w_log with_confh with_log] in Hin. apply in_map_iff in Hin as (y & Hy & _).
+  destruct (existsb (N.eqb (t_id y)) _ && (t_parent y =? parent)) eqn:Ec.
+  - subst t. destruct y; cbn. auto.
+  - subst t. rewrite Hrev in Ec. cbn in Ec. lia.
+Qed.
+
+(** ... and what is in that set: exactly the received entries (with a stored kernel) whose
+    kernel the node no longer has and one of whose outputs, recorded Unspent, has vanished *)
+Theorem reverted_ids_spec w parent qs p km id :
+  existsb (N.eqb id) (reverted_ids w parent qs p km) = true <->
+  exists t, In t (w_log w) /\ t_id t = id /\ t_parent t = parent /\ t_type t = TReceived
+            /\ t_excess t = true /\ In id km
+            /\ exists o, In o qs /\ r_tx o = Some id /\ r_status o = Unspent
+                         /\ present_height p (r_key o) (r_mmr o) = None.
+Proof.
+  unfold reverted_ids. rewrite existsb_exists. split.
+  - intros (x & Hin & Hx). apply N.eqb_eq in Hx. subst x.
+    apply in_map_iff in Hin as (t & Hid & Hin). apply filter_In in Hin as [Hin Hf].
+    repeat (apply andb_true_iff in Hf as [Hf ?]).
+    exists t. split; [exact Hin|]. split; [exact Hid|]. split; [lia|].
+    split; [destruct (t_type t); try discriminate; reflexivity|]. split; [assumption|].
+    split.
+    + apply existsb_exists in H as (y & Hy & Hey). apply N.eqb_eq in Hey. congruence.
+    + apply existsb_exists in Hf as (g & Hg & Heg). apply N.eqb_eq in Heg.
+      apply in_map_iff in Hg as (o & Ho & Hino). apply filter_In in Hino as [Hino Hfo].
+      apply andb_true_iff in Hfo as [Hfo Hab]. apply andb_true_iff in Hfo as [Htx Hst].
+      exists o. split; [exact Hino|]. destruct (r_tx o) as [i|]; [|discriminate].
+      split; [congruence|]. split; [destruct (r_status o); try discriminate; reflexivity|].
+      destruct (present_height _ _ _); [discriminate|reflexivity].
+  - intros (t & Hin & Hid & Hp & Hty & Hex & Hkm & o & Hino & Htx & Hst & Hab).
+    exists id. split; [|apply N.eqb_refl]. apply in_map_iff. exists t. split; [exact Hid|].
+    apply filter_In. split; [exact Hin|].
+    repeat (apply andb_true_iff; split).
+    + apply existsb_exists. exists id. split; [|rewrite Hid; apply N.eqb_refl].
+      apply in_map_iff. exists o. split; [now rewrite Htx|]. apply filter_In. split; [exact Hino|].
+      rewrite Htx, Hst, Hab. reflexivity.
+    + lia.
+    + now rewrite Hty.
+    + exact Hex.
+    + apply existsb_exists. exists id. split; [exact Hkm|rewrite Hid; apply N.eqb_refl].
+Qed.
